@@ -51,7 +51,7 @@ int32_t getEcPubKey(psPool_t *pool, const unsigned char **pp, psSize_t len,
 # endif
     const psEccCurve_t *eccCurve;
     const unsigned char *p = *pp, *end;
-    int32_t oid;
+    int32_t oid, rc;
     psSize_t arcLen;
     uint8_t ignore_bits;
 
@@ -120,10 +120,11 @@ int32_t getEcPubKey(psPool_t *pool, const unsigned char **pp, psSize_t len,
 # endif
 
     /* Note arcLen could again be zero here */
-    if (psEccX963ImportKey(pool, p, arcLen, pubKey, eccCurve) < 0)
+    if ((rc = psEccX963ImportKey(pool, p, arcLen, pubKey, eccCurve)) < 0)
     {
         psTraceCrypto("Unable to parse ECC pubkey from cert\n");
-        return PS_PARSE_FAIL;
+        /* Callers that tolerate unparseable keys must still see this. */
+        return (rc == PS_MEM_FAIL) ? PS_MEM_FAIL : PS_PARSE_FAIL;
     }
     p += arcLen;
 
